@@ -156,6 +156,26 @@ def run_case(ctx, i, rng):
                                 ctx.count("siblings_named_like_a_flat_path")
                             except ValueError:
                                 pass
+    if i % 4 == 1 or i % 9 == 5:
+        # the bits of a bus port put into another order AFTER the cell was instanced (reorder-only setter; a pin moved to the
+        # front): every connection hangs on the pin objects, so the design is the same - the instances' pin tables, filled
+        # when the instance was pointed at the cell, now list the pins in the old order
+        for l_ in n.libraries:
+            for d_ in l_.definitions:
+                if elab_is_leaf(d_) or not d_.references or d_ is n.top_instance.reference:
+                    continue
+                for p_ in d_.ports:
+                    if len(p_.pins) >= 2 and rng.random() < 0.7:
+                        if rng.random() < 0.6:
+                            order_ = list(p_.pins)
+                            while order_ == list(p_.pins):
+                                rng.shuffle(order_)
+                            p_.pins = order_
+                        else:
+                            pin_ = p_.pins[-1]
+                            order_ = [pin_] + [q_ for q_ in p_.pins if q_ is not pin_]
+                            p_.pins = order_
+                        ctx.count("bus_ports_reordered_after_instancing")
     if i % 7 == 4 or i % 11 == 6:
         # a hierarchical cell turned into a black box AFTER it was looked at (uniquify asked whether it is a leaf): its contents
         # are taken out with the bulk calls, its ports stay
